@@ -536,6 +536,14 @@ struct Gen {
     if (i > 0 && Hash64(s.outs[0], (uint64_t)i * 9 + 4) % 12 == 0) {
       s.ins.clear();
       if (Hash64(s.outs[0], (uint64_t)i * 9 + 5) % 2 == 0) { s.imp_ins.clear(); s.oo_ins.clear(); }
+      // (a generated file the command includes keeps its declared path: without one a from-scratch build is
+      // a race and "clean build" means nothing - unless the profile asks for exactly that)
+      if (!Has(F_HIDDEN_NOPATH))
+        for (auto& h : s.hidden) if (std::find(gen_outs.begin(), gen_outs.end(), h) != gen_outs.end()) {
+          bool declared = false;
+          for (auto* w : {&s.ins, &s.imp_ins, &s.oo_ins}) if (std::find(w->begin(), w->end(), h) != w->end()) declared = true;
+          if (!declared) s.oo_ins.push_back(h);
+        }
     }
     sc.stmts.push_back(s);
     for (auto& o : s.outs) { avail.push_back(o); gen_outs.push_back(o); }
